@@ -102,6 +102,7 @@ def nodeOp (n : RxPath.Node) (w : List String) : RxPath.Node × String :=
       | _ => "blocked")
   | "rm" => ((RxPath.step n (.removeSess (num 1))).1, "ok")
   | "t" => ((RxPath.step n (.tick (num 1))).1, "ok")
+  | "nuid" => ({ n with t := { n.t with nextUid := num 1 % 268435456 } }, "ok")
   | "swa" =>
     let r := RxPath.step n .sweepAccept
     (r.1, match r.2 with
@@ -140,9 +141,21 @@ def nodeOracle (prevSnap : ISnap) (prevRx : String) (w : List String) (res : Str
     | _ => some "a message was delivered although none was waiting"
   else none
 
+/-- second clause (property text: a message that a responder accepted is handed to that exchange; the
+receive path does not wedge): `acc` = the exchange that last accepted and the message it accepted -/
+def nodeOracle2 (acc : Option (Nat × Nat × String)) (prevRx : String) (w : List String) (res : String) : Option String :=
+  match acc with
+  | some (u, i, m) =>
+    if w.getD 0 "" = "recv" && (w.getD 1 "").toNat? = some u && (w.getD 2 "").toNat? = some i && prevRx = m
+        && (res = "blocked" || res = "gone") then
+      some s!"exchange ({u}, {i}) accepted the waiting message {m} but its recv does not return it ({res}): the message is stuck in the RX slot"
+    else none
+  | none => none
+
 structure St where
   node : Option RxPath.Node := none
   nodePrev : ISnap × String := ({}, "-")
+  nodeAcc : Option (Nat × Nat × String) := none
   m : MSt := {}
   o : OSt := {}
   /-- `sys` cases: is this a system-level case, and how many replies the injected datagrams may cause -/
@@ -424,8 +437,18 @@ def step (st : St) (line : String) : St × String :=
       let (isnap, irx) := match irest.splitOn " @ " with
         | [a, b] => (a, b.trimAscii.toString)
         | _ => (irest, "?")
-      let st' := { st with node := some nd', nodePrev := (parseSnap isnap, irx) }
-      match nodeOracle st.nodePrev.1 st.nodePrev.2 w ires with
+      let acc' : Option (Nat × Nat × String) :=
+        match words ires with
+        | ["acc", u, i] => some (u.toNat?.getD 0, i.toNat?.getD 0, irx)
+        | _ => match st.nodeAcc with
+          | some (u, i, m) =>
+            -- the clause ends when the message leaves the slot, or the owner sends / is dropped / loses its session
+            let op := w.getD 0 ""
+            let sameU := (w.getD 1 "").toNat? = some u
+            if irx != m || (sameU && (op = "drop" || op = "send" || op = "rm")) then none else some (u, i, m)
+          | none => none
+      let st' := { st with node := some nd', nodePrev := (parseSnap isnap, irx), nodeAcc := acc' }
+      match (nodeOracle st.nodePrev.1 st.nodePrev.2 w ires).orElse (fun _ => nodeOracle2 st.nodeAcc st.nodePrev.2 w ires) with
       | some why => (st', s!"ORA {why}")
       | none => if full = out then (st', "ok") else (st', s!"DIS {full}")
     | none =>
